@@ -219,6 +219,10 @@ func c13Items() []c13Item {
 	} {
 		out = append(out, c13Item{id: us.id, v: us.v, kind: us.kind, class: "fhir." + strings.ToLower(us.kind) + ".us"})
 	}
+	// date and partial dateTime elements read in a zone east or west of UTC (the proto is anchored at that zone's midnight)
+	for _, v := range c15ExtraElements() {
+		out = append(out, c13Item{id: v.ID, v: v.V, kind: v.RT.Kind, class: v.Class})
+	}
 	// quantities whose unit is empty or only human readable: still quantities, not Booleans or numbers
 	for _, q := range []struct{ id, n, u string }{{"q1-emptyunit", "1", ""}, {"q0-emptyunit", "0", ""}, {"q1.0-emptyunit", "1.0", ""}, {"q0.00-emptyunit", "0.00", ""}, {"q2-emptyunit", "2", ""}} {
 		out = append(out, c13Item{id: q.id, v: system.MustParseQuantity(q.n, q.u), kind: "Quantity", class: "qty.emptyunit"})
@@ -360,6 +364,33 @@ func c13HistReceivers(items []c13Item) []c13Item {
 	return out
 }
 
+// c13Shape: a run of digits as 9, a run of letters as a (T, Z, e kept: they are syntax), everything else as written
+func c13Shape(s string) string {
+	var b strings.Builder
+	last := rune(0)
+	for _, ch := range s {
+		if (ch >= '0' && ch <= '9' && last == '9') || (last == 'a' && (ch >= 'a' && ch <= 'z' || ch >= 'A' && ch <= 'Z') && ch != 'T' && ch != 'Z' && ch != 'e') {
+			continue // runs of digits and of letters count once
+		}
+		last = 0
+		switch {
+		case ch >= '0' && ch <= '9':
+			last = '9'
+			b.WriteByte('9')
+		case ch == 'T' || ch == 'Z' || ch == 'e':
+			b.WriteRune(ch)
+		case ch >= 'a' && ch <= 'z' || ch >= 'A' && ch <= 'Z':
+			last = 'a'
+			b.WriteByte('a')
+		case ch == '|' || ch == '*':
+			b.WriteByte('?')
+		default:
+			b.WriteRune(ch)
+		}
+	}
+	return b.String()
+}
+
 func c13StrClass(s string) string {
 	switch {
 	case s == "":
@@ -419,7 +450,14 @@ func init() {
 						if r.WantSample() {
 							r.Sample(core.W{"item": it.id, "target": T, "toT": to.String(), "convertsToT": cv.String()})
 						}
-						key := func(clause, d string) string { return fmt.Sprintf("%s|%s|%s|%s", clause, T, it.class, d) }
+						key := func(clause, d string) string {
+							if clause == "table" && it.kind == "String" {
+								// which strings a lenient or strict parser gets wrong is part of the finding: the shape of the text
+								// (digits as 9, letters as a, everything else as written) goes into the key
+								d += "|shape=" + c13Shape(it.str)
+							}
+							return fmt.Sprintf("%s|%s|%s|%s", clause, T, it.class, d)
+						}
 						w := func() core.W {
 							return core.W{"item": it.id, "target": T, "toT": to.String(), "convertsToT": cv.String(), "table_says_convertible": map[int]string{cYes: "yes", cNo: "no", cUndef: "undefined"}[want]}
 						}
